@@ -348,3 +348,279 @@ Proof.
     + apply is_derive_ln. exact Hx.
   - rewrite /minus /plus /opp /zero /scal /= /mult /=. rewrite /xs map_app /=. ring.
 Qed.
+
+(* ---------------- the kernel-density filters' sensitivities are the derivatives ---------------- *)
+Section KDEterm.
+  Variables (v dv : R -> R) (c y : R).
+  Hypothesis Hv : forall x, is_derive v x (dv x).
+  Hypothesis Hc : 0 < c.
+
+  Definition kg (z t : R) : R := - (z - y)^2 / (c * v t) / 2.
+
+  Lemma kg_fixed z x : 0 < v x ->
+    is_derive (kg z) x ((z - y)^2 / (2 * c) * dv x / (v x)^2).
+  Proof.
+    move=> Hp. rewrite /kg.
+    have Ex : ex_derive v x by eexists; apply Hv.
+    auto_derive; first by repeat split => //; apply Rgt_not_eq, Rmult_lt_0_compat.
+    rewrite (is_derive_unique _ _ _ (Hv x)). field. split; apply Rgt_not_eq; lra.
+  Qed.
+  Lemma kg_moving x : 0 < v x ->
+    is_derive (fun t => kg t t) x (- (x - y) / (c * v x) + (x - y)^2 / (2 * c) * dv x / (v x)^2).
+  Proof.
+    move=> Hp. rewrite /kg.
+    have Ex : ex_derive v x by eexists; apply Hv.
+    auto_derive; first by repeat split => //; apply Rgt_not_eq, Rmult_lt_0_compat.
+    rewrite (is_derive_unique _ _ _ (Hv x)). field. split; apply Rgt_not_eq; lra.
+  Qed.
+End KDEterm.
+
+Lemma Rsum_map_middle {T} (f : T -> R) pre x post :
+  Rsum (map f (pre ++ x :: post)) = Rsum (map f pre) + f x + Rsum (map f post).
+Proof. rewrite map_app Rsum_app /=. ring. Qed.
+
+Lemma Rsum_exp_pos' (l : list R) : 0 <= Rsum (map exp l).
+Proof. elim: l => [|a l IH] /=; first lra. have := exp_pos a. lra. Qed.
+
+Section KDEcell.
+  Variables (v dv : R -> R) (c y : R) (pre post : list R).
+  Hypothesis Hv : forall x, is_derive v x (dv x).
+  Hypothesis Hc : 0 < c.
+
+  Definition kS (t : R) : R :=
+    Rsum (map (fun z => exp (kg v c y z t)) pre) + exp (kg v c y t t) + Rsum (map (fun z => exp (kg v c y z t)) post).
+  Definition kq (z x : R) : R := (z - y)^2 / (2 * c) * dv x / (v x)^2.
+  Definition kdS (x : R) : R :=
+    Rsum (map (fun z => exp (kg v c y z x) * kq z x) pre)
+    + exp (kg v c y x x) * (- (x - y) / (c * v x) + kq x x)
+    + Rsum (map (fun z => exp (kg v c y z x) * kq z x) post).
+
+  Lemma kS_pos t : 0 < kS t.
+  Proof.
+    rewrite /kS. have := exp_pos (kg v c y t t).
+    have H1 : 0 <= Rsum (map (fun z => exp (kg v c y z t)) pre).
+    { have -> : map (fun z => exp (kg v c y z t)) pre = map exp (map (fun z => kg v c y z t) pre) by rewrite map_map.
+      apply Rsum_exp_pos'. }
+    have H2 : 0 <= Rsum (map (fun z => exp (kg v c y z t)) post).
+    { have -> : map (fun z => exp (kg v c y z t)) post = map exp (map (fun z => kg v c y z t) post) by rewrite map_map.
+      apply Rsum_exp_pos'. }
+    lra.
+  Qed.
+
+  Lemma exp_comp_derive (g : R -> R) x d : is_derive g x d -> is_derive (fun t => exp (g t)) x (exp (g x) * d).
+  Proof.
+    move=> H. evar_last.
+    - apply: (is_derive_comp exp g x); last by exact H. apply is_derive_exp.
+    - rewrite /scal /= /mult /=. ring.
+  Qed.
+
+  Lemma kS_derive x : 0 < v x -> is_derive kS x (kdS x).
+  Proof.
+    move=> Hp. rewrite /kS /kdS.
+    apply: is_derive_plus; first apply: is_derive_plus.
+    - apply (is_derive_Rsum pre (fun z t => exp (kg v c y z t)) (fun z => exp (kg v c y z x) * kq z x)).
+      move=> z _. apply exp_comp_derive. by apply kg_fixed.
+    - apply (exp_comp_derive (fun t => kg v c y t t)). by apply kg_moving.
+    - apply (is_derive_Rsum post (fun z t => exp (kg v c y z t)) (fun z => exp (kg v c y z x) * kq z x)).
+      move=> z _. apply exp_comp_derive. by apply kg_fixed.
+  Qed.
+
+  (* one measurement's contribution: ln S - K - ln (c v) / 2 *)
+  Definition kF (K : R) (t : R) : R := ln (kS t) - K - ln (c * v t) / 2.
+  Lemma kF_derive K x : 0 < v x -> is_derive (kF K) x (kdS x / kS x - dv x / (2 * v x)).
+  Proof.
+    move=> Hp. rewrite /kF. have HS := kS_pos x.
+    evar_last.
+    - apply: is_derive_minus.
+      + apply: is_derive_minus; last by apply: is_derive_const.
+        apply: (is_derive_comp ln kS x); first by apply is_derive_ln.
+        by apply kS_derive.
+      + apply: (is_derive_scal_l (fun t => ln (c * v t))).
+        apply: (is_derive_comp ln (fun t => c * v t) x).
+        * apply is_derive_ln. by apply Rmult_lt_0_compat.
+        * apply: is_derive_scal. apply Hv.
+    - rewrite /minus /plus /opp /zero /scal /= /mult /=. field.
+      repeat split; apply Rgt_not_eq; lra.
+  Qed.
+End KDEcell.
+
+(* ---------------- the Gaussian KDE filter's sensitivities are the derivatives ---------------- *)
+Lemma v_of_derive A B n x : n <> 0 -> n - 1 <> 0 ->
+  is_derive (v_of A B n) x (2 * (x - m_of A n x) / (n - 1)).
+Proof. move=> H0 H1. rewrite /v_of /m_of. auto_derive; first done. field. by split. Qed.
+
+Lemma bwf_pos n : 0 < bwf n. Proof. apply exp_pos. Qed.
+
+Theorem GKDE_grad_correct pre post x ys :
+  let xs := pre ++ x :: post in
+  1 < nR xs -> 0 < var xs ->
+  is_derive (fun t => GKDE_cell (pre ++ t :: post) ys) x (GKDE_grad xs ys x).
+Proof.
+  move=> xs H1 Hvar.
+  set n := nR xs. set A := Rsum pre + Rsum post.
+  set B := Rsum (map (fun z => z^2) pre) + Rsum (map (fun z => z^2) post).
+  set c := bwf n. have Hc : 0 < c by apply bwf_pos.
+  set v := v_of A B n. set dv := fun t => 2 * (t - m_of A n t) / (n - 1).
+  have Hn0 : n <> 0 by apply Rgt_not_eq; rewrite /n; lra.
+  have Hn1 : n - 1 <> 0 by apply Rgt_not_eq; rewrite /n; lra.
+  have Hv : forall t, is_derive v t (dv t) by move=> t; apply v_of_derive.
+  have Hmv : forall t, mean (pre ++ t :: post) = m_of A n t /\ var (pre ++ t :: post) = v t.
+  { move=> t. have := mean_v_middle pre post t. rewrite (nR_middle pre post t x) -/xs -/n -/A -/B. apply. rewrite /n. lra. }
+  have [Em Ev] := Hmv x. rewrite -/xs in Em Ev.
+  have Hvx : 0 < v x by rewrite -Ev.
+  set K := ln n + ln2PI / 2.
+  (* the cell as a sum of kF terms *)
+  have Ecell : forall t, GKDE_cell (pre ++ t :: post) ys = Rsum (map (fun y => kF v c y pre post K t) ys).
+  { move=> t. rewrite /GKDE_cell /bw2 (nR_middle pre post t x) -/xs -/n -/c. have [_ ->] := Hmv t.
+    f_equal. apply map_ext => y. rewrite /kF /kS /lse /kde_scores /kg /K.
+    rewrite map_map Rsum_map_middle. ring. }
+  apply is_derive_ext with (fun t => Rsum (map (fun y => kF v c y pre post K t) ys)).
+  { move=> t. by rewrite Ecell. }
+  have -> : GKDE_grad xs ys x
+            = Rsum (map (fun y => kdS v dv c y pre post x / kS v c y pre post x - dv x / (2 * v x)) ys).
+  { rewrite /GKDE_grad /KDE_grad_z /bw2 -/n -/c Ev Em. f_equal. apply map_ext => y.
+    set S := kS v c y pre post x. have HS : 0 < S by apply kS_pos.
+    have Elist : kde_scores xs (c * v x) y = map (fun z => kg v c y z x) xs by rewrite /kde_scores /kg.
+    have Else : lse (kde_scores xs (c * v x) y) = ln S.
+    { rewrite Elist /lse map_map /xs Rsum_map_middle. reflexivity. }
+    set L := map (fun z => kg v c y z x) (pre ++ x :: post).
+    have ElseL : lse L = ln S by rewrite -Else Elist.
+    have Esm : forall a, smax L a = exp a / S.
+    { move=> a. rewrite /smax ElseL /Rminus exp_plus exp_Ropp exp_ln //. }
+    rewrite Elist -/L map_map /xs Rsum_map_middle. cbv beta. rewrite !Esm.
+    have Eq : forall z, kq v dv c y z x = - kg v c y z x * (dv x / v x).
+    { move=> z. rewrite /kq /kg. field. split; apply Rgt_not_eq; lra. }
+    rewrite /kdS.
+    have E1 : forall l, Rsum (map (fun z => exp (kg v c y z x) * kq v dv c y z x) l)
+                        = - (dv x / v x) * Rsum (map (fun z => exp (kg v c y z x) * kg v c y z x) l).
+    { move=> l. rewrite -Rsum_map_scal. f_equal. apply map_ext => z. rewrite Eq. ring. }
+    have E2 : forall l, Rsum (map (fun z => smax L (kg v c y z x) * kg v c y z x) l)
+                        = / S * Rsum (map (fun z => exp (kg v c y z x) * kg v c y z x) l).
+    { move=> l. rewrite -Rsum_map_scal. f_equal. apply map_ext => z. rewrite Esm /Rdiv. ring. }
+    rewrite !E1 !E2 Eq.
+    have -> : - (x - y)^2 / (c * v x) / 2 = kg v c y x x by rewrite /kg.
+    have Hn1' : 0 < n - 1 by rewrite /n; lra.
+    rewrite /dv. field. repeat split; apply Rgt_not_eq; lra. }
+  apply (is_derive_Rsum ys (fun y t => kF v c y pre post K t)
+           (fun y => kdS v dv c y pre post x / kS v c y pre post x - dv x / (2 * v x))).
+  move=> y _. by apply kF_derive.
+Qed.
+
+(* ---------------- log-normal KDE filter: chain rule through the Gaussian KDE cell of the logarithms ---------------- *)
+Lemma LNKDE_as_GKDE xs ys :
+  LNKDE_cell xs ys = GKDE_cell (map ln xs) (map ln ys) - Rsum (map ln ys).
+Proof.
+  rewrite /LNKDE_cell /GKDE_cell. have -> : nR xs = nR (map ln xs) by rewrite /nR map_length.
+  elim: ys => [|y l IH]; cbn [map Rsum]; first by ring.
+  rewrite IH. ring.
+Qed.
+
+Theorem LNKDE_grad_correct pre post x ys :
+  let xs := pre ++ x :: post in
+  0 < x -> 1 < nR xs -> 0 < var (map ln xs) ->
+  is_derive (fun t => LNKDE_cell (pre ++ t :: post) ys) x (LNKDE_grad xs ys x).
+Proof.
+  move=> xs Hx H1 Hv.
+  apply is_derive_ext with
+    (fun t => GKDE_cell (map ln pre ++ ln t :: map ln post) (map ln ys) - Rsum (map ln ys)).
+  { move=> t. by rewrite LNKDE_as_GKDE map_app. }
+  rewrite /LNKDE_grad.
+  evar_last.
+  - apply: is_derive_minus; last by apply: is_derive_const.
+    apply: (is_derive_comp (fun u => GKDE_cell (map ln pre ++ u :: map ln post) (map ln ys)) ln x).
+    + have := GKDE_grad_correct (map ln pre) (map ln post) (ln x) (map ln ys).
+      rewrite /xs map_app /= in Hv.
+      apply; last by exact Hv.
+      have -> : nR (map ln pre ++ ln x :: map ln post) = nR xs by rewrite /nR /xs !app_length /= !map_length.
+      exact H1.
+    + apply is_derive_ln. exact Hx.
+  - rewrite /minus /plus /opp /zero /scal /= /mult /= /GKDE_grad /xs map_app /=. field. lra.
+Qed.
+
+(* ---------------- the Gaussian mixture filter's sensitivities are the derivatives ---------------- *)
+(* the mixture cell in terms of its blocks (GMIX_cell k m xs ys is this with bs = blocks k m xs) *)
+Definition GMIX_cell_blocks (k : nat) (bs : list (list R)) (ys : list R) : R :=
+  Rsum (map (fun y => lse (map (fun b => mix_score b y) bs) - ln (INR k) - ln2PI / 2) ys).
+Lemma GMIX_cell_is_blocks k m xs ys : GMIX_cell k m xs ys = GMIX_cell_blocks k (blocks k m xs) ys.
+Proof. by []. Qed.
+
+(* score of one block as a function of one of its simulated values *)
+Lemma mix_score_derive pre post x y :
+  let b := pre ++ x :: post in
+  1 < nR b -> 0 < var b ->
+  is_derive (fun t => mix_score (pre ++ t :: post) y) x
+            ((y - mean b) / var b / nR b + (- / var b + (y - mean b)^2 / (var b)^2) * (x - mean b) / (nR b - 1)).
+Proof.
+  move=> b H1 Hv.
+  set n := nR b. set A := Rsum pre + Rsum post.
+  set B := Rsum (map (fun z => z^2) pre) + Rsum (map (fun z => z^2) post).
+  have Hmv : forall t, mean (pre ++ t :: post) = m_of A n t /\ var (pre ++ t :: post) = v_of A B n t.
+  { move=> t. have := mean_v_middle pre post t. rewrite (nR_middle pre post t x) -/b -/n -/A -/B. apply. rewrite /n. lra. }
+  have [Em Ev] := Hmv x. rewrite -/b in Em Ev.
+  have Hvx : 0 < v_of A B n x by rewrite -Ev.
+  apply is_derive_ext with
+    (fun t => scal (- / 2) (ln2PI + ln (v_of A B n t) + (y - m_of A n t)^2 / v_of A B n t) + ln2PI / 2).
+  { move=> t. rewrite /mix_score. have [-> ->] := Hmv t. rewrite /scal /= /mult /= /Rdiv. ring. }
+  evar_last.
+  - apply: is_derive_plus; last by apply: is_derive_const.
+    apply: is_derive_scal. apply G_term_derive; [by rewrite /n | exact Hvx].
+  - rewrite /plus /zero /scal /= /mult /= Em Ev. field.
+    have Hn : 0 < n - 1 by rewrite /n; lra. repeat split; apply Rgt_not_eq; lra.
+Qed.
+
+Lemma lse_pos_sum l : l <> [] -> 0 < Rsum (map exp l).
+Proof. by apply Rsum_exp_pos. Qed.
+
+(* lse of a list one of whose entries moves *)
+Lemma lse_middle_derive (f : R -> R) (d : R) pre post x :
+  is_derive f x d ->
+  is_derive (fun t => lse (pre ++ f t :: post)) x (smax (pre ++ f x :: post) (f x) * d).
+Proof.
+  move=> Hf. rewrite /lse /smax.
+  have HS : forall t, 0 < Rsum (map exp (pre ++ f t :: post)) by move=> t; apply Rsum_exp_pos; case: (pre).
+  apply is_derive_ext with (fun t => ln (Rsum (map exp pre) + exp (f t) + Rsum (map exp post))).
+  { move=> t. by rewrite Rsum_map_middle. }
+  evar_last.
+  - apply: (is_derive_comp ln (fun t => Rsum (map exp pre) + exp (f t) + Rsum (map exp post)) x).
+    + apply is_derive_ln. rewrite -Rsum_map_middle. apply HS.
+    + apply: is_derive_plus; last by apply: is_derive_const.
+      apply: is_derive_plus; first by apply: is_derive_const.
+      apply: (is_derive_comp exp f x); [apply is_derive_exp | exact Hf].
+  - rewrite /plus /zero /scal /= /mult /=. rewrite -Rsum_map_middle.
+    rewrite /Rminus exp_plus exp_Ropp exp_ln; last by apply HS. field. apply Rgt_not_eq, HS.
+Qed.
+
+(* the mixture filter's sensitivity w.r.t. a simulated value x of block b = bpre ++ x :: bpost *)
+Theorem GMIX_grad_correct k (bs1 bs2 : list (list R)) bpre bpost x ys :
+  let b := bpre ++ x :: bpost in
+  let bs := bs1 ++ b :: bs2 in
+  1 < nR b -> 0 < var b ->
+  is_derive (fun t => GMIX_cell_blocks k (bs1 ++ (bpre ++ t :: bpost) :: bs2) ys) x
+            (Rsum (map (fun y =>
+               smax (map (fun c => mix_score c y) bs) (mix_score b y)
+               * ((y - mean b) / var b / nR b
+                  + (- / var b + (y - mean b)^2 / (var b)^2) * (x - mean b) / (nR b - 1))) ys)).
+Proof.
+  move=> b bs H1 Hv. rewrite /GMIX_cell_blocks.
+  apply (is_derive_Rsum ys
+           (fun y t => lse (map (fun c => mix_score c y) (bs1 ++ (bpre ++ t :: bpost) :: bs2)) - ln (INR k) - ln2PI / 2)).
+  move=> y _.
+  evar_last.
+  - apply: is_derive_minus; last by apply: is_derive_const.
+    apply: is_derive_minus; last by apply: is_derive_const.
+    apply is_derive_ext with
+      (fun t => lse (map (fun c => mix_score c y) bs1 ++ mix_score (bpre ++ t :: bpost) y :: map (fun c => mix_score c y) bs2)).
+    { move=> t. by rewrite map_app. }
+    apply (lse_middle_derive (fun t => mix_score (bpre ++ t :: bpost) y)).
+    by apply mix_score_derive.
+  - rewrite /minus /plus /opp /zero /=. rewrite /bs /b map_app /=. ring.
+Qed.
+
+Theorem GMIX_grad_model k m xs ys (bs1 bs2 : list (list R)) bpre bpost x :
+  let b := bpre ++ x :: bpost in
+  blocks k m xs = bs1 ++ b :: bs2 -> nR b = INR m -> 1 < INR m -> 0 < var b ->
+  is_derive (fun t => GMIX_cell_blocks k (bs1 ++ (bpre ++ t :: bpost) :: bs2) ys) x (GMIX_grad k m xs ys b x).
+Proof.
+  move=> b Eb En H1 Hv. rewrite /GMIX_grad Eb -En.
+  apply GMIX_grad_correct; [by rewrite En | exact Hv].
+Qed.
